@@ -6,7 +6,7 @@ ENGINE = {'name': 'udp',
  'case_type': 'c09case',
  'check': 'check',
  'imports': ['From L4.model Require Import Udp.'],
- 'n_quick': 120,
+ 'n_quick': 90,
  'n_thorough': 1500,
  'timeout': 900,
  'shard': 12,
